@@ -427,6 +427,9 @@ pub struct Shadow {
     pub entry: (usize, usize),
     /// function first entered in this slot
     pub entry_f: usize,
+    /// stack length the caller must see when this frame returns (Call: the two operands replaced
+    /// by exactly one result); None for the bottom frame and for filter frames of a Select
+    pub ret_s: Option<usize>,
 }
 
 pub struct TraceCheck {
@@ -499,10 +502,13 @@ pub fn check_trace_from(
     // execution of a given `Store` happens at the same frame-relative count.
     let mut store_count: HashMap<(usize, usize), usize> = HashMap::new();
     // pops exhausted frames; returns false if the shadow stack ran out
-    fn settle(shadow: &mut Vec<Shadow>, functions: &[Function]) {
+    fn settle(shadow: &mut Vec<Shadow>, functions: &[Function], expect: &mut Vec<usize>) {
         while let Some(top) = shadow.last() {
             if top.pc < functions[top.f].instructions.len() {
                 break;
+            }
+            if let Some(r) = top.ret_s {
+                expect.push(r);
             }
             shadow.pop();
             if let Some(c) = shadow.last_mut() {
@@ -514,15 +520,21 @@ pub fn check_trace_from(
     }
     // (depth, base) of the frame that executed the previous traced instruction
     let mut prev_frame: Option<(usize, usize)> = None;
+    // stack lengths the callers of the frames that just returned expect to see
+    let mut ret_expect: Vec<usize> = vec![];
+    let have_anns = !anns.is_empty();
+    // without annotations (a program the checker rejected): relative height first seen at each pc
+    let mut seen_height: HashMap<(usize, usize), usize> = HashMap::new();
     for (k, &(f, pc, s, l)) in trace.iter().enumerate() {
         if k == 0 {
             if s == 0 {
                 res.mismatch = Some((0, "empty stack at process entry".into()));
                 return res;
             }
-            shadow.push(Shadow { f, base: s - 1, pc: 0, sel: 0, l: entry_locals.unwrap_or(functions[f].captures), entry: (s, l), entry_f: f });
+            shadow.push(Shadow { f, base: s - 1, pc: 0, sel: 0, l: entry_locals.unwrap_or(functions[f].captures), entry: (s, l), entry_f: f, ret_s: None });
         } else {
             // the previous point executed the instruction at the top shadow frame
+            ret_expect.clear();
             let (pf, ppc, _ps, _pl) = trace[k - 1];
             let pinstr = functions[pf].instructions[ppc];
             let n = functions[pf].instructions.len() as isize;
@@ -533,12 +545,13 @@ pub fn check_trace_from(
             match pinstr {
                 Instruction::Call => {
                     if pc == 0 && s > 0 {
-                        // new frame (a function value was called): its argument is on top
-                        shadow.push(Shadow { f, base: s - 1, pc: 0, sel: 0, l: functions[f].captures, entry: (s, l), entry_f: f });
+                        // new frame (a function value was called): its argument is on top; when it
+                        // returns, exactly one value has replaced the two operands of the Call
+                        shadow.push(Shadow { f, base: s - 1, pc: 0, sel: 0, l: functions[f].captures, entry: (s, l), entry_f: f, ret_s: Some(_ps.saturating_sub(1)) });
                     } else {
                         // builtin, or a callee with an empty body
                         shadow.last_mut().unwrap().pc = ppc + 1;
-                        settle(&mut shadow, functions);
+                        settle(&mut shadow, functions, &mut ret_expect);
                     }
                 }
                 Instruction::TailCall(_) => {
@@ -560,14 +573,14 @@ pub fn check_trace_from(
                             res.loop_head_drift = Some((k, f, entry, (s, l)));
                         }
                         *shadow.last_mut().unwrap() =
-                            Shadow { f, base, pc: 0, sel: 0, l: functions[f].captures, entry, entry_f };
+                            Shadow { f, base, pc: 0, sel: 0, l: functions[f].captures, entry, entry_f, ret_s: shadow.last().unwrap().ret_s };
                     } else {
                         // tail-called function has an empty body: frame exhausted at once
                         let top = shadow.last_mut().unwrap();
                         top.pc = usize::MAX;
                         let fl = functions[top.f].instructions.len();
                         top.pc = fl;
-                        settle(&mut shadow, functions);
+                        settle(&mut shadow, functions, &mut ret_expect);
                     }
                 }
                 Instruction::Select => {
@@ -579,29 +592,37 @@ pub fn check_trace_from(
                         // a filter function was called on a message
                         res.select_filter_calls += 1;
                         top.sel = 2;
-                        shadow.push(Shadow { f, base: s - 1, pc: 0, sel: 0, l: functions[f].captures, entry: (s, l), entry_f: f });
+                        shadow.push(Shadow { f, base: s - 1, pc: 0, sel: 0, l: functions[f].captures, entry: (s, l), entry_f: f, ret_s: None });
                     } else {
                         top.sel = 0;
                         top.pc = ppc + 1;
-                        settle(&mut shadow, functions);
+                        settle(&mut shadow, functions, &mut ret_expect);
                     }
                 }
                 Instruction::Jump(off) => {
                     shadow.last_mut().unwrap().pc = target(off);
-                    settle(&mut shadow, functions);
+                    settle(&mut shadow, functions, &mut ret_expect);
                 }
                 Instruction::JumpIf(off) => {
                     // either successor; take the one the trace shows
+                    let mut ret_a = vec![];
+                    let mut ret_b = vec![];
                     let mut a = shadow.clone();
                     a.last_mut().unwrap().pc = ppc + 1;
-                    settle(&mut a, functions);
+                    settle(&mut a, functions, &mut ret_a);
                     let mut b2 = shadow.clone();
                     b2.last_mut().unwrap().pc = target(off);
                     if target(off) != usize::MAX {
-                        settle(&mut b2, functions);
+                        settle(&mut b2, functions, &mut ret_b);
                     }
                     let matches = |sh: &Vec<Shadow>| sh.last().map(|t| t.f == f && t.pc == pc).unwrap_or(false);
-                    shadow = if matches(&a) { a } else { b2 };
+                    if matches(&a) {
+                        shadow = a;
+                        ret_expect = ret_a;
+                    } else {
+                        shadow = b2;
+                        ret_expect = ret_b;
+                    }
                 }
                 other => {
                     let top = shadow.last_mut().unwrap();
@@ -611,7 +632,7 @@ pub fn check_trace_from(
                         _ => {}
                     }
                     top.pc = ppc + 1;
-                    settle(&mut shadow, functions);
+                    settle(&mut shadow, functions, &mut ret_expect);
                 }
             }
         }
@@ -624,18 +645,56 @@ pub fn check_trace_from(
             res.mismatch = Some((k, format!("control flow: reconstructed frame is at f{} pc{}, executor is at f{f} pc{pc}", top.f, top.pc)));
             return res;
         }
-        let Some(Some(a)) = anns.get(f).and_then(|v| v.get(pc)) else {
-            res.mismatch = Some((k, format!("executor reached f{f} pc{pc}, which the inferred annotations mark unreachable")));
-            return res;
-        };
-        let expect_h = if top.sel == 1 { a.h.saturating_sub(1) } else { a.h };
-        if s < top.base || s - top.base != expect_h {
-            res.mismatch = Some((k, format!("height: f{f} pc{pc} stack_len={s} entry_base={} => relative {} but ann.height={} (select phase {})", top.base, s as isize - top.base as isize, a.h, top.sel)));
+        // a frame that returned must have replaced its argument by exactly one result
+        if let Some(&want) = ret_expect.iter().find(|&&w| w != s) {
+            res.mismatch = Some((k, format!("return: a callee returned to f{f} pc{pc} leaving stack_len={s}, its caller's Call expects {want} (argument not replaced by exactly one result)")));
             return res;
         }
-        if l < a.l {
-            res.mismatch = Some((k, format!("locals: f{f} pc{pc} frame-relative locals={l} < ann.locals={}", a.l)));
-            return res;
+        if have_anns {
+            let Some(Some(a)) = anns.get(f).and_then(|v| v.get(pc)) else {
+                res.mismatch = Some((k, format!("executor reached f{f} pc{pc}, which the inferred annotations mark unreachable")));
+                return res;
+            };
+            let expect_h = if top.sel == 1 { a.h.saturating_sub(1) } else { a.h };
+            if s < top.base || s - top.base != expect_h {
+                res.mismatch = Some((k, format!("height: f{f} pc{pc} stack_len={s} entry_base={} => relative {} but ann.height={} (select phase {})", top.base, s as isize - top.base as isize, a.h, top.sel)));
+                return res;
+            }
+            if l < a.l {
+                res.mismatch = Some((k, format!("locals: f{f} pc{pc} frame-relative locals={l} < ann.locals={}", a.l)));
+                return res;
+            }
+        } else {
+            // no certificate: look for a concrete witness of ill-formedness on this run
+            if s < top.base {
+                res.mismatch = Some((k, format!("witness: f{f} pc{pc} runs with stack_len={s} below its frame's base {}", top.base)));
+                return res;
+            }
+            let rel = s - top.base;
+            let instr = functions[f].instructions[pc];
+            match instr {
+                Instruction::TailCall(true) if rel != 1 => {
+                    res.mismatch = Some((k, format!("witness: TailCall(true) at f{f} pc{pc} executes with {rel} cells over the frame's base: {} cell(s) are abandoned on the operand stack at every iteration", rel - 1)));
+                    return res;
+                }
+                Instruction::TailCall(false) if rel != 2 => {
+                    res.mismatch = Some((k, format!("witness: TailCall(false) at f{f} pc{pc} executes with {rel} cells over the frame's base (needs exactly function + argument)")));
+                    return res;
+                }
+                _ => {}
+            }
+            if !matches!(instr, Instruction::Select) {
+                match seen_height.get(&(f, pc)) {
+                    Some(&h0) if h0 != rel => {
+                        res.mismatch = Some((k, format!("witness: f{f} pc{pc} is reached with relative stack heights {h0} and {rel} on different paths")));
+                        return res;
+                    }
+                    None => {
+                        seen_height.insert((f, pc), rel);
+                    }
+                    _ => {}
+                }
+            }
         }
         if l != top.l {
             res.mismatch = Some((k, format!("locals: f{f} pc{pc} frame-relative locals={l} but M-VM's Store/Reset/call/return rules predict exactly {}", top.l)));
